@@ -380,8 +380,9 @@ theorem kmMatch_regex_order {P km} (h : KMOK P km) {es : List (W × Nat)} (hp : 
 
 /-! ### the rule set and the executable specification -/
 
-/-- The rules that enter the index are exactly those `AddRule` accepts one after the other: the first rule
-    of each name, unless it (or an earlier refused rule of that name) lacks a kind or scope match. -/
+/-- The rules that enter the index are exactly those `AddRule` accepts one after the other: a rule with a
+    kind and a scope match whose name no earlier ACCEPTED rule has (after fix b2c3167 a refused rule no
+    longer blocks its name). -/
 theorem indexed_characterised (rules : List Rule) : (Root.build rules).indexed = Spec.accepted rules [] :=
   Root.indexed_accepted rules
 
@@ -420,6 +421,12 @@ example : Spec.fires (fun _ _ => true) [rA, rS, rT] (fun _ => true) eAB "s" ∧
     ¬ Spec.fires (fun _ _ => true) [rA, rS, rT] (fun _ => true) eAB "r" := by
   unfold Spec.fires; decide
 example : (Root.build [rA, rS, rT]).indexed = [rA, rS, rT] := by decide
+
+/-- Negative witness (the defect repaired by b2c3167): with the name registered before validation, a rule
+    refused for its nil scope match blocks the corrected rule of the same name — it never fires. -/
+theorem addRule_old_blocks_name :
+    ((Root.addRuleOld ((Root.addRuleOld {} { rA with scopeNil := true }).1) rA).1.indexed = []) ∧
+    (Root.build [{ rA with scopeNil := true }, rA]).indexed = [rA] := by decide
 
 /-! ## the 64-bit masks of a state leaf: per-bit facts used by `bitmask_faithful` -/
 
